@@ -12,6 +12,7 @@ import TvFs.Model.Fragment
 import TvFs.Proofs.Partial
 import TvFs.Proofs.Repairs
 import TvFs.Proofs.Committed
+import TvFs.Proofs.StepX
 
 namespace TV.C10
 open TV.Fs
@@ -211,15 +212,27 @@ theorem C10_partial_before (h : List Op) (hf : fragRun Live.init h = true) :
   rw [run_eq_lRun h St.init Live.init R_init hf]
   exact (sRun_eq_lRun h Spec.init (fragRun_crashFree h Live.init hf)).symm
 
-/-- `C10_partial`: on every history of the fragment (`fragRun`: all ops except rename / remove_file /
-    remove_dir / remove_dir_all / create_dir_all, no shrinking set_len or truncating open of a non-empty
-    file, no file creation over a directory — conditions judged against the POSIX tree) the model of the
-    committed code returns exactly the observations of the POSIX tree.  Proof: inside the fragment the six
-    repairs change no step (`stepFx_c`), so the simulation of `C10_partial_before` carries over. -/
-theorem C10_partial (h : List Op) (hf : fragRun Live.init h = true) :
+/-- `C10_partial`: on every history of the fragment `fragRunC` — **every** shim call except
+    `remove_file`, `remove_dir`, `remove_dir_all`, `rename` and `create_dir_all`, in any order, with any
+    arguments — the model of the committed code returns exactly the observations of the POSIX tree.
+    The fragment no longer depends on the state: shrinking `set_len`, truncating opens and `fs::write`
+    over non-empty files (excluded before the repair of F-C10-1) and opens / `fs::write` that meet a
+    directory (F-C10-9) are inside.  Proof: simulation directly on `stepFx Fixes.committed` (relation
+    `RX` = `R` without the no-shrink invariant, `sim_stepX`); the repaired read order makes the visible
+    content the incremental one whatever `SetLen`s are pending (`contentFx_eq_inc'`).
+    What stays outside, and why: removal and rename are exactly where the open findings F-C10-2, 3, 4,
+    5, 6, 8 live (the pending log is keyed by path; the proof's invariant `NoRN` = no rename / removal
+    pending); `create_dir_all` is only a gap of the proof (covered by K / O). -/
+theorem C10_partial (h : List Op) (hf : fragRunC h = true) :
     runFx Fixes.committed {} St.init (quiet h) = sRun {} Spec.init (quiet h) := by
-  rw [runFx_c h St.init Live.init R_init hf]
-  exact C10_partial_before h hf
+  rw [runFx_eq_lRun h St.init Live.init RX_init hf]
+  exact (sRun_eq_lRun h Spec.init (fragRunC_crashFree h hf)).symm
+
+/-- the fragment of `C10_partial_before` lies inside the new one (so the old theorem for the committed
+    code is a special case) -/
+theorem C10_partial_oldFragment (h : List Op) (hf : fragRun Live.init h = true) :
+    runFx Fixes.committed {} St.init (quiet h) = sRun {} Spec.init (quiet h) :=
+  C10_partial h (fragRun_fragRunC h Live.init hf)
 
 /-- the fragment is not trivial: create, write with a hole, overlapping write, extend, syncs in
     between, reads, listings -/
@@ -229,26 +242,39 @@ def fragExample : List Op :=
    .writeFile b [1, 2, 3], .seek 0 2 (-1), .read 0 4, .stat (d ++ a), .readDir [], .readDir d,
    .dump [a, b, d, d ++ a], .readFile (d ++ a)]
 
-example : fragRun Live.init fragExample = true := by decide
+example : fragRunC fragExample = true := by decide
 example : (runFx Fixes.committed {} St.init (quiet fragExample)).getLast? = some (.data [0, 0, 65, 67, 0, 0]) := by
   decide
+
+/-- inside the new fragment, outside the old one: shrink below pending data then grow again (the shape
+    of F-C10-1), truncating open of a non-empty file, `fs::write` over a non-empty file, create over a
+    directory, `fs::write` onto a directory -/
+def fragExampleNew : List Op :=
+  [.writeFile a [65, 66, 67, 68], .open 0 a RW, .setLen 0 1, .setLen 0 3, .readFile a,
+   .open 1 a { w := true, t := true }, .readFile a, .writeFile a [69, 70], .writeFile a [71], .readFile a,
+   .mkdir d, .open 2 d WC, .writeFile d [1], .stat d]
+
+example : fragRunC fragExampleNew = true := by decide
+example : fragRun Live.init fragExampleNew = false := by decide
+example : fragRun Live.init [.writeFile a [65, 66], .open 0 a RW, .setLen 0 1] = false := by decide
+example : fragRun Live.init [.mkdir d, .open 2 d WC] = false := by decide
+example : runFx Fixes.committed {} St.init (quiet fragExampleNew) =
+    [.ok, .ok, .ok, .ok, .data [65, 0, 0], .ok, .data [], .ok, .ok, .data [71],
+     .ok, .err .isdir, .err .isdir, .dir] := by decide
+/-- the code before the repairs gets this history wrong (stale bytes after shrink + grow) -/
+example : run {} St.init (quiet fragExampleNew) ≠ lRun Live.init fragExampleNew := by decide
 
 /-- `C10_sync_invisible`: inserting a sync_all / sync_data / sync_dir anywhere in a fragment history
     changes no later observation -/
 theorem C10_sync_invisible (h1 h2 : List Op) (s : Op) (hs : isSync s = true)
-    (hf : fragRun Live.init (h1 ++ h2) = true) :
+    (hf : fragRunC (h1 ++ h2) = true) :
     (runFx Fixes.committed {} St.init (quiet (h1 ++ s :: h2))).drop (h1.length + 1) =
       (runFx Fixes.committed {} St.init (quiet (h1 ++ h2))).drop h1.length := by
-  obtain ⟨l', _, e2, e3⟩ := lRun_append h1 h2 Live.init
-  have hf2 : fragRun Live.init (h1 ++ s :: h2) = true := by
-    rw [e3 (s :: h2)]
-    rw [e3 h2] at hf
-    simp only [Bool.and_eq_true] at hf ⊢
-    refine ⟨hf.1, ?_⟩
-    simp only [fragRun, Bool.and_eq_true]
-    exact ⟨fragOk_sync l' s hs, by rw [lStep_sync l' s hs]; exact hf.2⟩
-  rw [runFx_c _ St.init Live.init R_init hf2, runFx_c _ St.init Live.init R_init hf]
-  rw [run_eq_lRun _ St.init Live.init R_init hf2, run_eq_lRun _ St.init Live.init R_init hf]
+  obtain ⟨l', _, e2, _⟩ := lRun_append h1 h2 Live.init
+  have hf2 : fragRunC (h1 ++ s :: h2) = true := by
+    simp only [fragRunC, List.all_append, List.all_cons, Bool.and_eq_true] at hf ⊢
+    exact ⟨hf.1, fragOkC_sync s hs, hf.2⟩
+  rw [runFx_eq_lRun _ St.init Live.init RX_init hf2, runFx_eq_lRun _ St.init Live.init RX_init hf]
   rw [e2 (s :: h2), e2 h2]
   simp only [lRun, lStep_sync l' s hs]
   have L : (lRun Live.init h1).length = h1.length := length_lRun _ _
